@@ -33,7 +33,8 @@ func verifEmittedFrom(wire []byte, genuine []verifEntry, tag string) int {
 
 func verifH_C16_adopt() {
 	W := verifParam("W", 1)
-	w1 := verifChoose("w1", verifParam("W1", W)+1)
+	w1min := verifParam("W1min", 0)
+	w1 := w1min + verifChoose("w1", verifParam("W1", W)+1-w1min)
 	wr := verifChoose("wr", W+1)
 	wp := verifChoose("wp", W+1)
 	ps := verifPINVStore(w1, wr, wp)
